@@ -192,7 +192,10 @@ TABLE = {
             "arises only when the statement has its operation child), the error listener raises BlackbirdSyntaxError "
             "carrying the reported line and the 1-based column; without the invariant the model exhibits the "
             "AttributeError / UnboundLocalError Python would raise; every printed script passes the model's syntax "
-            "stage under every layout. Partial: ANTLR's ALL(*) prediction and error strategy are not modelled; 'passes "
+            "stage under every layout. Character level (Props/C10Lex.lean): the model scanner is total on arbitrary text - "
+            "some rule matches at every non-empty rest (unknown characters become ANY tokens), every match takes between "
+            "one and all remaining characters, the fuel `lex` passes is never exhausted, and the final EOF token stands "
+            "behind the last character. Partial: ANTLR's ALL(*) prediction and error strategy are not modelled; 'passes "
             "iff sentence of the grammar' and 'reported token not earlier than the first bad token' are decided per "
             "input by an Earley recogniser over src/blackbird.g4 on the shipped lexer's tokens (single-token edits, "
             "truncations, soups); the listener model is compared with every real listener call and the invariant is "
